@@ -252,6 +252,22 @@ def build_vectors(tier, rnd, strings, calls):
         add(v_ps(mutate(rnd, rnd.choice(short))), "mutation")
     for _ in range(T["n_random_mk"]):
         add(random_mk(rnd), "random_make")
+    # bracketed IPv6 hosts at and beyond the longest textual form (45 characters, mixed notation), with something extra
+    # inside the brackets: the whole bracket content must be an address, not just a prefix of it
+    ip6_forms = [b"1111:2222:3333:4444:5555:6666:100.200.100.200", b"1111:2222:3333:4444:5555:6666:7777:8888",
+                 b"::ffff:100.200.100.200", b"1111:2222:3333:4444:5555:6666:1.2.3.4", b"::1", b"fe80::1", b"::",
+                 b"0000:0000:0000:0000:0000:0000:255.255.255.255", b"1::2:3:4:5:6:7", b"1111:2222:3333:4444:5555:6666::"]
+    extras = [b"0", b"1", b"9", b"a", b"f", b"G", b":", b".", b"::", b":0", b".0", b" ", b"%1", b"%eth0", b"]", b"00", b"000",
+              b"GARBAGE", b"1" * 20, b"/64"]
+    n6 = 0
+    for form in ip6_forms:
+        for t in (HPT if tier == "thorough" else ["tcp", "btls", "utls"]):
+            for ex in extras:
+                for where in ("tail", "head"):
+                    inner = form + ex if where == "tail" else ex + form
+                    add(v_ps(t.encode() + b":[" + inner + b"]:" + str(rnd.choice(BOUNDARY_PORTS)).encode()), "ip6_long")
+                    n6 += 1
+            add(v_ps(t.encode() + b":[" + form + b"]:4711"), "ip6_long")
     # parsers with a caller-supplied buffer: every capacity around the length of what they return
     ux = [s for s in bnd if s.startswith(b"ux:") or s.startswith(b"uxf:")]
     pcs = ux + rnd.sample(bnd, min(len(bnd), T["pc_strings"]))
